@@ -295,3 +295,35 @@ func DrawCellCase(t *rapid.T, name string, minT, maxT int) CellCase {
 	T := rapid.IntRange(minT, maxT).Draw(t, "T")
 	return CellCase{Model: name, Cell: cell, Inputs: DrawInputs(t, name, cell, T), State: DrawStates(t, name, cell)}
 }
+
+// StorageRoutingSolverCanMiss reports whether, for one StorageRouting step with zero inflow bias,
+// the model's own stopping constants (20 iterations, convergence limit 1e-8 m^3/s) cannot guarantee
+// its mass-balance tolerance (1e-3 m^3): m < 1 and, at the root q* of q*dt + k*q^m + dead = water held
+// (found here by 200 bisections on [0, bracket]), the residual slope s = dt + k*m*q*^(m-1) satisfies
+// s*1e-8 > 1e-3 or s*bracket/2^20 > 1e-3. This is the predicate of the recorded finding
+// "storage-routing-unconverged" (used by C11 and C06).
+func StorageRoutingSolverCanMiss(k, m, dead, dt, prevS, inflow, lateral, netEvap float64) bool {
+	if m >= 1 {
+		return false
+	}
+	avail := math.Max(prevS, 0)/dt + inflow - netEvap
+	bracket := avail + lateral
+	held := prevS + (inflow+lateral-netEvap)*dt
+	s := func(q float64) float64 {
+		if q <= 0 {
+			return dead
+		}
+		return k*math.Pow(q, m) + dead
+	}
+	lo, hi := 0.0, bracket
+	for it := 0; it < 200; it++ {
+		mid := 0.5 * (lo + hi)
+		if mid*dt+s(mid)-held > 0 {
+			hi = mid
+		} else {
+			lo = mid
+		}
+	}
+	slope := dt + k*m*math.Pow(hi, m-1)
+	return slope*1e-8 > 1e-3 || slope*bracket/(1<<20) > 1e-3
+}
